@@ -84,7 +84,7 @@ let rec binom n k = if k < 0 || k > n then 0 else if k = 0 then 1 else binom (n 
    left-over record are reported as DIFF as well. *)
 exception Replay_mismatch of string
 
-let replay_plain (b : block) (n : int) (t : int) (records : string list list)
+let replay_run (b : block) (n : int) (t : int) (fitness : int list option) (records : string list list)
   : (int list list option, string) result =
   (* records arrive newest first *)
   let records = List.rev records in
@@ -147,7 +147,10 @@ let replay_plain (b : block) (n : int) (t : int) (records : string list list)
     end
   in
   let d = Model.build b.circuit (Conv.nat_of_int n) in
-  let res = Mdl.TwisePipeline.sample_t_wise d (Conv.nat_of_int t) ord_int ord_sort trim_pick ord_shuf in
+  let res =
+    match fitness with
+    | None -> Mdl.TwisePipeline.sample_t_wise d (Conv.nat_of_int t) ord_int ord_sort trim_pick ord_shuf
+    | Some f -> Mdl.TwiseFitness.sample_t_wise_fit d (Conv.nat_of_int t) (Conv.zlist_of_ints f) trim_pick ord_shuf in
   let left = Hashtbl.fold (fun _ q a -> a + Queue.length q) ints_q 0
              + Hashtbl.fold (fun _ q a -> a + Queue.length q) sort_q 0
              + Queue.length trim_q + Queue.length shuf_q in
@@ -209,7 +212,11 @@ let check_twise (b : block) : verdict list =
           let tt = min t n in
           bump (Printf.sprintf "c09_runs_%s" variant);
           (* tie to the model: replay of the recorded order decisions (plain library runs) *)
-          (if variant = "plain" then
+          (* the fitness variant (Model/TwiseFitness.v) is deterministic up to the trim decision and the shuffle *)
+          let fit_vals = match o.op with
+            | _ :: _ :: "fitness" :: vs -> (try Some (ints vs) with _ -> None)
+            | _ -> None in
+          (if variant = "plain" || (variant = "fitness" && fit_vals <> None) then
              match o.olog with
              | None | Some None -> bump "c09_replay_no_log"
              | Some (Some records) ->
@@ -224,14 +231,16 @@ let check_twise (b : block) : verdict list =
                    | None, Some ("EMPTY" :: _) -> `Cfgs []
                    | None, Some ("S" :: rest) -> `Cfgs (List.filter (fun c -> c <> []) (List.map ints (split_on ";" rest)))
                    | _ -> `Other in
-                 match (try replay_plain b n t records with e -> Error ("exception " ^ Printexc.to_string e)) with
+                 let tag = if variant = "plain" then "c09_replay" else "c09_fit_replay" in
+                 match (try replay_run b n t (if variant = "plain" then None else fit_vals) records
+                        with e -> Error ("exception " ^ Printexc.to_string e)) with
                  | Error msg ->
-                   bump "c09_replay_oracle_mismatch";
+                   bump (tag ^ "_oracle_mismatch");
                    add (Diff ("twise-replay-oracle", Printf.sprintf "[%s] %s" opdesc msg))
                  | Ok m ->
                    (match m, impl_res with
-                    | None, `Panic -> bump "c09_replay_panic_agree"
-                    | Some mc, `Cfgs ic when mc = ic -> bump "c09_replay_equal"; bump_by "c09_replay_equal_configs" (List.length ic)
+                    | None, `Panic -> bump (tag ^ "_panic_agree")
+                    | Some mc, `Cfgs ic when mc = ic -> bump (tag ^ "_equal"); bump_by (tag ^ "_equal_configs") (List.length ic)
                     | None, _ -> add (Diff ("twise-replay", Printf.sprintf "[%s] the model panics, the implementation does not" opdesc))
                     | Some _, `Panic -> add (Diff ("twise-replay", Printf.sprintf "[%s] the implementation panics, the model does not" opdesc))
                     | Some mc, `Cfgs ic ->
